@@ -3,8 +3,10 @@
      items  : "_" | <name>:<atype>{,<name>:<atype>}
      query  : "_" | <key>=S<hex> | <key>=N<dec> joined by '&'
    Cases:
-     C <T|K|R> <n> <limit> <at> <last> <cbfail> <path> <query> <nresp> {12 tokens per response}
-         response = status ctype json doclen totlen items link fhdr fann ttext tpath tquery
+     C <T|K|R> <n> <limit> <at> <last> <cbfail> <path> <query> <nresp> {13 tokens per response}
+         response = status nameunknown ctype json doclen totlen items links fhdr fann ttext tpath tquery
+         (links: "_" or the Link header lines joined by ',')
+     W <U|S|N> <cbunsupp> <tsfound> <tssize> <tsitems> <the fields of a C line>   Repository.Referrers
          (ttext "!" = the response has no resolvable link target; tpath "!" = net/url rejects it)
      S <T|K|R> <L items> <cap> <path> <query> <m> <extra query> <filter> <fhdr> <fann>
      L <cmp> <header>          parseLink extraction
@@ -13,7 +15,8 @@
      B <limit> <json> <doclen> <totlen>   limitReader + decoder
      Z <limit> <size>          limitSize
      O <entries> <last>        content/oci listTags
-     X <limit> <found> <size> <items> <at> <cbfail>   referrers tag schema *)
+     X <limit> <found> <size> <items> <at> <cbfail>   referrers tag schema
+     P <U|S|N> <status> <nameunknown> <ctype>   pingReferrers: answer (1|0|E), state, requests *)
 let z_of_int (i : int) : z =
   if i = 0 then Z0 else if i > 0 then Zpos (pos_of_int i) else Zneg (pos_of_int (- i))
 
@@ -51,7 +54,7 @@ let tok_of_url u = hex_of_str u.u_path ^ "?" ^ tok_of_query u.u_query
 
 let kind_of_tok = function "T" -> KTags | "K" -> KCatalog | "R" -> KReferrers | _ -> failwith "kind"
 let out_name = function
-  | Done -> "Done" | ErrStatus -> "ErrStatus" | ErrCType -> "ErrCType" | ErrDecode -> "ErrDecode"
+  | Done -> "Done" | ErrStatus -> "ErrStatus" | ErrUnsupported -> "ErrUnsupported" | ErrCType -> "ErrCType" | ErrDecode -> "ErrDecode"
   | ErrCallback -> "ErrCallback" | ErrLink -> "ErrLink" | ErrResolve -> "ErrResolve" | ErrSize -> "ErrSize"
   | OutOfFuel -> "OutOfFuel"
 
@@ -59,29 +62,33 @@ let rec take n l = if n = 0 then ([], l) else match l with x :: r -> let (a, b) 
 
 let bool_tok t = (t = "1")
 
-let () =
-  iter_lines (fun l ->
-    match split_ws l with
-    | id :: "C" :: kd :: n :: limit :: at :: last :: cbf :: path :: q :: nresp :: rest ->
+let tok_of_pages ps = match ps with [] -> "_" | _ -> String.concat ";" (List.map tok_of_items ps)
+let strs_of_tok t = List.map str_of_hex (split_on_char_ne ',' t)
+
+(* the client loop of a C/W line: kd n limit at last cbfail path query nresp {13 tokens per response} *)
+let run_client toks =
+  match toks with
+  | kd :: n :: limit :: at :: last :: cbf :: path :: q :: nresp :: rest ->
       let cfg = { c_kind = kind_of_tok kd; c_n = z_of_int (int_of_string n);
                   c_limit = z_of_int (int_of_string limit); c_at = str_of_hex at } in
       let nr = int_of_string nresp in
       let rec parse k toks =
         if k = 0 then [] else
-        let (r, toks') = take 12 toks in
+        let (r, toks') = take 13 toks in
         match r with
-        | [st; ct; js; dl; tl; its; link; fh; fa; tt; tp; tq] ->
-          let resp = { rs_status = n_of_int (int_of_string st); rs_ctype_ok = bool_tok ct; rs_json_ok = bool_tok js;
+        | [st; nu; ct; js; dl; tl; its; links; fh; fa; tt; tp; tq] ->
+          let resp = { rs_status = n_of_int (int_of_string st); rs_name_unknown = bool_tok nu; rs_ctype = str_of_hex ct;
+                       rs_json_ok = bool_tok js;
                        rs_doc_len = n_of_int (int_of_string dl); rs_total_len = n_of_int (int_of_string tl);
-                       rs_items = items_of_tok its; rs_link = str_of_hex link; rs_fhdr = str_of_hex fh;
+                       rs_items = items_of_tok its; rs_links = strs_of_tok links; rs_fhdr = str_of_hex fh;
                        rs_fann = str_of_hex fa } in
           let tgt = if tt = "!" then None
             else Some (str_of_hex tt, if tp = "!" then None else Some { u_path = str_of_hex tp; u_query = query_of_tok tq }) in
           (resp, tgt) :: parse (k - 1) toks'
         | _ -> failwith "resp" in
       let script = Array.of_list (parse nr rest) in
-      let dead = { rs_status = n_of_int 599; rs_ctype_ok = false; rs_json_ok = false; rs_doc_len = N0; rs_total_len = N0;
-                   rs_items = []; rs_link = []; rs_fhdr = []; rs_fann = [] } in
+      let dead = { rs_status = n_of_int 599; rs_name_unknown = false; rs_ctype = []; rs_json_ok = false; rs_doc_len = N0;
+                   rs_total_len = N0; rs_items = []; rs_links = []; rs_fhdr = []; rs_fann = [] } in
       let serve i _ = let i = int_of_nat i in if i < Array.length script then fst script.(i) else dead in
       let resolve _ t =
         let r = ref None in
@@ -91,13 +98,30 @@ let () =
         (match !r with Some u -> u | None -> None) in
       let cbfail = int_of_string cbf in
       let cb k = (int_of_nat k = cbfail) in
-      let tr = loop serve resolve cb cfg (nat_of_int (nr + 2)) O O
-          { u_path = str_of_hex path; u_query = query_of_tok q } (str_of_hex last) in
+      (cfg, loop serve resolve cb cfg (nat_of_int (nr + 2)) O O
+          { u_path = str_of_hex path; u_query = query_of_tok q } (str_of_hex last))
+  | _ -> failwith "client line"
+
+let () =
+  iter_lines (fun l ->
+    match split_ws l with
+    | id :: "C" :: rest ->
+      let (cfg, tr) = run_client rest in
       Printf.printf "%s R %s P %d %s O %s\n" id
         (String.concat "|" (List.map tok_of_url tr.t_reqs))
-        (List.length tr.t_pages)
-        (match tr.t_pages with [] -> "_" | ps -> String.concat ";" (List.map tok_of_items ps))
-        (out_name tr.t_out)
+        (List.length tr.t_pages) (tok_of_pages tr.t_pages) (out_name tr.t_out)
+    | id :: "W" :: st :: cbu :: found :: size :: tsitems :: rest ->
+      let (cfg, tr) = run_client rest in
+      let cbfail = (match rest with _ :: _ :: _ :: _ :: _ :: cbf :: _ -> int_of_string cbf | _ -> -1) in
+      let ts k = tag_schema cfg.c_limit (bool_tok found) (z_of_int (int_of_string size)) (items_of_tok tsitems) cfg.c_at
+          (fun j -> int_of_nat k + int_of_nat j = cbfail) in
+      let state = (match st with "U" -> RUnknown | "S" -> RSupported | _ -> RUnsupported) in
+      let w = referrers_wrap state (bool_tok cbu) tr ts in
+      Printf.printf "%s R %s P %d %s O %s F %d S %s\n" id
+        (match w.w_reqs with [] -> "_" | rs -> String.concat "|" (List.map tok_of_url rs))
+        (List.length w.w_pages) (tok_of_pages w.w_pages) (out_name w.w_out)
+        (if w.w_fell_back then 1 else 0)
+        (match w.w_state with RUnknown -> "U" | RSupported -> "S" | RUnsupported -> "N")
     | [id; "S"; kd; its; cap; path; q; m; extra; flt; fh; fa] ->
       let d = { d_m = nat_of_int (int_of_string m); d_extra = query_of_tok extra; d_filter = bool_tok flt;
                 d_fhdr = str_of_hex fh; d_fann = str_of_hex fa; d_doc_len = N0; d_pad = N0 } in
@@ -117,9 +141,9 @@ let () =
       Printf.printf "%s %s\n" id (tok_of_items (filter_referrers (items_of_tok its) (str_of_hex at)))
     | [id; "B"; limit; js; dl; tl] ->
       let cfg = { c_kind = KTags; c_n = Z0; c_limit = z_of_int (int_of_string limit); c_at = [] } in
-      let rs = { rs_status = n_of_int 200; rs_ctype_ok = true; rs_json_ok = bool_tok js;
+      let rs = { rs_status = n_of_int 200; rs_name_unknown = false; rs_ctype = mediaTypeImageIndex; rs_json_ok = bool_tok js;
                  rs_doc_len = n_of_int (int_of_string dl); rs_total_len = n_of_int (int_of_string tl);
-                 rs_items = []; rs_link = []; rs_fhdr = []; rs_fann = [] } in
+                 rs_items = []; rs_links = []; rs_fhdr = []; rs_fann = [] } in
       Printf.printf "%s %s\n" id (if body_fits cfg rs then "OK" else "ERR")
     | [id; "Z"; limit; size] ->
       Printf.printf "%s %d\n" id (if limit_size_rejects (z_of_int (int_of_string limit)) (z_of_int (int_of_string size)) then 1 else 0)
@@ -133,5 +157,13 @@ let () =
           (items_of_tok its) (str_of_hex at) (fun k -> int_of_nat k = cbfail) in
       Printf.printf "%s P %d %s O %s\n" id (List.length pages)
         (match pages with [] -> "_" | ps -> String.concat ";" (List.map tok_of_items ps)) (out_name out)
+    | [id; "P"; st; status; nu; ct] ->
+      let state = (match st with "U" -> RUnknown | "S" -> RSupported | _ -> RUnsupported) in
+      let rs = { rs_status = n_of_int (int_of_string status); rs_name_unknown = bool_tok nu; rs_ctype = str_of_hex ct;
+                 rs_json_ok = true; rs_doc_len = N0; rs_total_len = N0; rs_items = []; rs_links = []; rs_fhdr = []; rs_fann = [] } in
+      let (st', r) = ping state rs in
+      Printf.printf "%s %s %s %d\n" id (match r with Some true -> "1" | Some false -> "0" | None -> "E")
+        (match st' with RUnknown -> "U" | RSupported -> "S" | RUnsupported -> "N")
+        (match state with RUnknown -> 1 | _ -> 0)
     | [] -> ()
     | _ -> Printf.printf "BADLINE %s\n" l)
